@@ -88,13 +88,16 @@ def arith_script(rnd):
         args = [R.num_enc(a), R.num_enc(b), b'\x01']
     else:
         args = [R.num_enc(a), R.num_enc(b)]
-    if rnd.random() < 0.3:
-        body = b'\x6b\x6c' + body if False else body
+    if rnd.random() < 0.12:
+        # a keyless script of the pay-to-script-hash SHAPE whose argument is its hash preimage: as a witness script, tapscript leaf or P2SH redeem
+        # script it is an ordinary script (the preimage is data, never run as a script)
+        pre = rnd.choice([b'\x51', b'\x00', b'\x6a', b'\x51\x51\x93', b'\x75\x00', b'\xff', b'hello', b'\x52\x53\x94'])
+        return b'\xa9\x14' + h160(pre) + b'\x87', [pre]
     return body, args
 
 
-def build(rnd, typ, ninputs=None, same_fund_decoy=False):
-    """returns dict(tx, fund, idx, pos, type, value, spk, spent_all, meta) describing a VALID spend"""
+def build(rnd, typ, ninputs=None, same_fund_decoy=False, allow_invalid=False):
+    """returns dict(tx, fund, idx, pos, type, value, spk, spent_all, meta) describing a VALID spend (allow_invalid: the sigreuse leaf may exceed its budget by one check)"""
     value = rnd.randrange(1000, 10 ** 9)
     k = [Key(rnd) for _ in range(3)]
     if k[0].d == k[1].d:
@@ -138,9 +141,15 @@ def build(rnd, typ, ninputs=None, same_fund_decoy=False):
         elif r < 0.7:
             leaf_script = P(k[1].x) + b'\xac' + P(k[2].x) + b'\xba' + num(2) + b'\x9c'
             meta['leafkind'] = 'checksigadd'
-        elif r < 0.85:
+        elif r < 0.82:
             leaf_script = ascript
             meta['leafkind'] = 'keyless'
+        elif r < 0.85:
+            # degenerate leaves: the empty script (valid with exactly one true argument) and one-operation scripts
+            leaf_script = rnd.choice([b'', b'', b'\x61', b'\x51\x75'])
+            aargs = [b'\x01']
+            meta['leafkind'] = 'keyless'
+            meta['tiny_leaf'] = True
         elif r < 0.93 or typ != 'p2tr-script':
             leaf_script = b'\x51\x69\xab' + P(k[1].x) + b'\xac'    # OP_1 OP_VERIFY OP_CODESEPARATOR <key> OP_CHECKSIG
             meta['leafkind'] = 'codesep'
@@ -160,7 +169,7 @@ def build(rnd, typ, ninputs=None, same_fund_decoy=False):
             n = 1
             while 50 * (n + 1) <= budget(n + 1):
                 n += 1
-            over = rnd.random() < 0.3
+            over = rnd.random() < 0.3 and allow_invalid     # (the draw happens either way: same transactions for every caller)
             n = n + 1 if over else (n if rnd.random() < 0.7 else max(1, n - 1))
             leaf_script = P(k[1].x) + b'\x6e\xad' * (n - 1) + b'\xac'
             meta['leafkind'] = 'sigreuse'
